@@ -26,6 +26,9 @@ func bases(quick bool) []base {
 		{"silent-proposer-two-rounds", consnet.Scenario{Powers: []int64{1, 1, 1, 1}, Byz: 0, Heights: 2, Rules: []consnet.Rule{{Kind: "byz-silent", Msg: "proposal", Round: 0}}}},
 		{"lock-in-round-0-commit-later", consnet.Scenario{Powers: []int64{1, 1, 1, 1}, Byz: -1, Heights: 2, Rules: []consnet.Rule{{Kind: "hold", Node: 1, Msg: "proposal", Round: 0}, {Kind: "hold", Node: 3, Msg: "prevote", Round: 0}}}},
 	}
+	b = append(b, base{"every-honest-vote-needed", consnet.Scenario{Powers: []int64{1, 1, 1, 1}, Byz: 3, Heights: 2, Rules: []consnet.Rule{
+		{Kind: "byz-silent", Msg: "prevote", Round: 0}, {Kind: "byz-silent", Msg: "precommit", Round: 0},
+		{Kind: "byz-silent", Msg: "prevote", Height: 2, Round: 0}, {Kind: "byz-silent", Msg: "precommit", Height: 2, Round: 0}}}})
 	if !quick {
 		b = append(b, base{"split-precommit-two-rounds", consnet.Scenario{Powers: []int64{1, 1, 1, 1}, Byz: 0, Heights: 2, Rules: []consnet.Rule{{Kind: "byz-split", Msg: "precommit", Round: 0, Set: []int{2}, Alt: "nil"}, {Kind: "hold", Node: 1, Msg: "prevote", Round: 0}}}})
 	}
